@@ -90,6 +90,12 @@ func c17Units(tier string) []Unit {
 			Alphabet: recov.ops(), Depth: depth, Budget: explore.Budget{Provides: 2, Decorates: 1, Invokes: 2, Rejected: 1}, Allowed: onceEach,
 			Monitors: []explore.Monitor{dryMonitor},
 		}})
+		enl := alpha{scopes: []int{0, 1}, ctors: []*uFunc{pAef, pBem}, decos: []*uFunc{dAef}, invokes: []*uFunc{iA, iB, iBn}}
+		units = append(units, Unit{Sc: &Scenario{
+			Name: fmt.Sprintf("dry/error-not-last/defer=%v", def), Cfg: h.Config{Dry: true, Defer: def}, Prefix: prefixChild,
+			Alphabet: enl.ops(), Depth: depth, Budget: explore.Budget{Provides: 2, Decorates: 1, Invokes: 2, Rejected: 1}, Allowed: onceEach,
+			Monitors: []explore.Monitor{dryMonitor},
+		}})
 		as := alpha{scopes: []int{0, 1}, ctors: []*uFunc{kAasI, kAasII, kIplain, pCia}, export: true, decos: []*uFunc{dIA}, invokes: []*uFunc{qI, qII, qIn, iC}}
 		units = append(units, Unit{Sc: &Scenario{
 			Name: fmt.Sprintf("dry/as/defer=%v", def), Cfg: h.Config{Dry: true, Defer: def}, Prefix: prefixChild,
